@@ -51,6 +51,7 @@ NOTES = {
     'C04-B': 'missed at first; `fetch_twice` history harness + contract added',
     'C08-A': 'missed at first (30 obligations went undecided on `copy.copy`); history contracts `*_child_after_serialize` added and `copy.copy` modelled in the engine',
     'C12-B': 'missed at first; history contract `tree2_reused` (same tree, two internal keys) added',
+    'C18-A': 'caught by the run-time companion only at first; contract `SipHash_2_4.hash#state-tail*` (finalisation from any absorbed state, 128-bit vectors) added, now fails deductively',
     'C10-B': 'missed at first; reject-at-load catalogue got the replay-across-inputs case',
     'C11-A': 'missed at first; tamper catalogue got the both-records entries',
     'C11-B': 'missed at first; tamper catalogue got the nested-metadata entries',
